@@ -140,6 +140,14 @@ Labels(s)          == SplitOn(DropTrailingDot(s), ".")
 HasEmptyIn(ls)     == \E i \in 1..Len(ls) : ls[i] = <<>>
 HasEmptyLabel(s)   == HasEmptyIn(Labels(s))
 
+\* The statement says "case-insensitively" about DNS names, which are ASCII.  Whether bytes outside
+\* ASCII are case-folded too is not pinned down: two labels that differ under ASCII folding but agree
+\* once the UTF-8 capital E-acute (C3 89) is folded to the small one (C3 A9) are left open.
+RECURSIVE FoldE(_)
+FoldE(l) == IF Len(l) < 2 THEN l
+            ELSE IF l[1] = "xC3" /\ l[2] = "x89" THEN <<"xC3", "xA9">> \o FoldE(SubSeq(l, 3, Len(l)))
+            ELSE <<l[1]>> \o FoldE(Tail(l))
+
 \* pattern p against host h, both already lower-cased: "accept" / "reject" / "open"
 PairVerdict(p, h) ==
   LET pl == Labels(p)
@@ -147,6 +155,7 @@ PairVerdict(p, h) ==
   IN IF HasEmptyIn(pl) \/ HasEmptyIn(hl) THEN "open"
      ELSE IF Len(pl) # Len(hl) THEN "reject"
      ELSE IF \A i \in 1..Len(pl) : pl[i] = <<"*">> \/ pl[i] = hl[i] THEN "accept"
+     ELSE IF \A i \in 1..Len(pl) : pl[i] = <<"*">> \/ FoldE(pl[i]) = FoldE(hl[i]) THEN "open"
      ELSE "reject"
 
 \* the names the certificate offers: DNS SANs, or the common name iff there is no SAN extension
